@@ -184,6 +184,16 @@ def apply(ds, ev, inplace, variant):
             ds.units = {"list": [f"v{j + 1}" for j in range(nd)], "wronglen": ["x"] * (nd + 1)}[arg]
         return ds
     kw = {"modify_in_place": True} if inplace else {}
+
+    def listed(keys):
+        """The model's argument is a mapping axis -> value: the order in which the caller lists the axes carries no
+        meaning.  The replay lists them ascending, descending or rotated, depending on the variant."""
+        ks_ = sorted(keys)
+        if len(ks_) >= 2 and variant % 3 == 1:
+            return ks_[::-1]
+        if len(ks_) >= 2 and variant % 3 == 2:
+            return ks_[1:] + ks_[:1]
+        return ks_
     if op == "pad":
         if arg["kind"] == "scalar":
             r = ds.pad(pad_width=1, **kw)
@@ -198,7 +208,7 @@ def apply(ds, ev, inplace, variant):
         if arg["allaxes"]:
             r = ds.crop(tuple((int(w[j][0]), int(w[j][1])) for j in sorted(w)), **kw)
         else:
-            ks = sorted(w)
+            ks = listed(w)
             if len(ks) == 1 and variant % 2:
                 r = ds.crop(((int(w[ks[0]][0]), int(w[ks[0]][1])),), axes=ks[0] - 1, **kw)
             else:
@@ -209,7 +219,7 @@ def apply(ds, ev, inplace, variant):
         if arg["form"] == "scalar-all":
             r = ds.bin(int(f[1]), reducer=red, **kw)
         else:
-            ks = sorted(f)
+            ks = listed(f)
             if len(ks) == 1 and variant % 2:
                 r = ds.bin(int(f[ks[0]]), axes=ks[0] - 1, reducer=red, **kw)
             else:
@@ -219,14 +229,14 @@ def apply(ds, ev, inplace, variant):
         if arg["form"] == "factors":
             r = ds.fourier_resample(factors=2.0, **kw)
         elif arg["form"] == "factors-tuple":
-            ks = sorted(o)
+            ks = listed(o)
             f = arg["fac"][0] / arg["fac"][1]
             if len(ks) == 1 and variant % 2:
                 r = ds.fourier_resample(factors=f, axes=ks[0] - 1, **kw)
             else:
                 r = ds.fourier_resample(factors=tuple(f for _ in ks), axes=tuple(j - 1 for j in ks), **kw)
         else:
-            ks = sorted(o)
+            ks = listed(o)
             r = ds.fourier_resample(out_shape=tuple(int(o[j]) for j in ks), axes=tuple(j - 1 for j in ks), **kw)
     elif op == "pad_crop":
         out, w = fmap(arg["out"]), fmap(arg["w"])
